@@ -87,3 +87,20 @@ silent("C17", "twin: xfunc_corrcoef copy after astype removed", XF, "        sel
 silent("C17", "twin: quantile dead-branch copy removed (dtype is never the type object float)", XF, "            arr = arr.copy()\n        arr[~validity] = NaN", "            pass\n        arr[~validity] = NaN")
 silent("C17", "twin: copy via numpy.array", FF, "            weights = weights.copy()\n", "            weights = numpy.array(weights)\n")
 silent("C17", "twin: copy via arithmetic", FF, "            summables = summables.copy()\n", "            summables = summables * 1\n", count=0)
+
+# ---------------------------------------------------------------- C16
+fire("C16", "ccube: pool.imap (no barrier)", CC, "pool.map(fill_one_cube, self.product())", "pool.imap(fill_one_cube, self.product())", "R-C16-c")
+fire("C16", "xcube: map_async (no barrier)", XC, "pool.map(fill_one_cube, self.product)", "pool.map_async(fill_one_cube, self.product)", "R-C16-c")
+fire("C16", "xcube: pool cached on self", XC, "with closing(self.pool_class(self.poolsize)) as pool:", "with closing(self._pool) as pool:", "R-C16-c")
+fire("C16", "ccube: tasks fill the whole region", CC, "regions = [region[tuple(flattened_slice)] for region in regions]", "regions = [region for region in regions]", "R-C16-a")
+fire("C16", "xcube: tasks fill the whole region", XC, "regions = [region[tuple(flattened_slice)] for region in regions]", "regions = list(regions)", "R-C16-a")
+fire("C16", "xfunc scratch buffer shared by tasks", XF, "        if self.ignore_missing:\n            sums, valid_counts = regions\n        else:\n            sums, valid_counts, missing_counts = regions\n\n        # This can be called thousands of times, so it's critical\n        # to perform as few passes over the data as possible.\n        # We set summables/countables[~validity] = 0 so there's\n        # no need to filter them out again here.\n\n        if coordinates is None:\n            sums[:] = numpy.nansum(self.summables, axis=0)\n            valid_counts[:] = numpy.count_nonzero(", "        if self.ignore_missing:\n            sums, valid_counts = regions\n        else:\n            sums, valid_counts, missing_counts = regions\n\n        self.summables[0] = self.summables[0]\n\n        if coordinates is None:\n            sums[:] = numpy.nansum(self.summables, axis=0)\n            valid_counts[:] = numpy.count_nonzero(", "R-C16-a")
+fire("C16", "xcube: shared strided dim scaled in the task", XC, "            flattened_slice = [\n                e for coords in nested_coords if coords is not None for e in coords\n            ]\n", "            flattened_slice = [\n                e for coords in nested_coords if coords is not None for e in coords\n            ]\n            strided_dims[0] *= 1\n", "R-C16-a")
+fire("C16", "ccube: task appends to a shared list", CC, "            subcube.walk(fill_funcs)\n", "            subcube.walk(fill_funcs)\n            results.append(None)\n", "R-C16-a")
+fire("C16", "ccube: block chosen by a prefix of the coordinates", CC, "regions = [region[tuple(flattened_slice)] for region in regions]", "regions = [region[tuple(flattened_slice[:1])] for region in regions]", "R-C16-b")
+fire("C16", "ccube: reduce inside the task", CC, "            subcube.walk(fill_funcs)\n", "            subcube.walk(fill_funcs)\n            for func, regions in zip(funcs, results):\n                func.reduce(self, regions)\n", None)
+fire("C16", "xcube: serial branch runs a different iterable", XC, "            for nested_coords in self.product:\n                fill_one_cube(nested_coords)", "            for nested_coords in list(self.product)[:1]:\n                fill_one_cube(nested_coords)", "R-C16-d")
+fire("C16", "aggregator state written by fill_func closure", FF, "        def _fill(x_coords, x_rowids):\n            if tracing:\n                start = time.perf_counter()\n\n            # This can be called millions of times, so it's critical\n            # to perform as few passes over the data as possible.\n            # We set summables[~validity] = 0", "        def _fill(x_coords, x_rowids):\n            self.last_coords = x_coords\n            if tracing:\n                start = time.perf_counter()\n\n            # This can be called millions of times, so it's critical\n            # to perform as few passes over the data as possible.\n            # We set summables[~validity] = 0", "R-C16-a")
+silent("C16", "twin: views built in a loop", CC, "                    regions = [region[tuple(flattened_slice)] for region in regions]\n", "                    views = []\n                    for region in regions:\n                        views.append(region[tuple(flattened_slice)])\n                    regions = views\n")
+silent("C16", "twin: rename task argument", XC, "        def fill_one_cube(nested_coords):", "        def fill_one_cube(nested_coords, _unused=None):")
+silent("C16", "twin: starmap-free local alias of the task", CC, "                pool.map(fill_one_cube, self.product())", "                task = fill_one_cube\n                pool.map(task, self.product())")
